@@ -14,16 +14,48 @@ theorem takeWhile_length_le {α : Type} (p : α → Bool) (l : List α) : (l.tak
     · simp only [List.length_cons]; omega
     · simp
 
-/-- C03 for the banner: an accepted identification string consumed between 1 and 255 bytes, all of
-them inside the buffer -/
-theorem banner_len_bound (bs : Bytes) (b : Banner) (n : Nat) (h : parseBanner bs = .ok (b, n)) :
-    0 < n ∧ n ≤ bs.length ∧ n ≤ 255 := by
+/-! ### the end of the parse -/
+
+theorem bannerFinish_ok_inv {major minor nv : Nat} {line : Bytes} {b : Banner} {n : Nat}
+    (h : bannerFinish major minor nv line = .ok (b, n)) :
+    n = 5 + nv + line.length + 1 ∧ n ≤ 255 ∧ b.major = major ∧ b.minor = minor := by
+  unfold bannerFinish at h
+  cases h4 : bannerLine line with
+  | error e => simp [h4, bind, Except.bind] at h
+  | ok r4 =>
+    obtain ⟨sw, comment⟩ := r4
+    simp only [h4, bind, Except.bind] at h
+    split at h
+    · simp at h
+    · next hn =>
+      split at h
+      · simp at h
+      · simp only [pure, Except.pure, Except.ok.injEq, Prod.mk.injEq] at h
+        obtain ⟨hb, hn2⟩ := h
+        subst hb
+        refine ⟨hn2.symm, ?_, rfl, rfl⟩
+        have : 5 + nv + line.length + 1 ≤ composedLength (5 + nv + line.length + 1) line := by
+          unfold composedLength; split <;> omega
+        omega
+
+/-! ### inversion and reconstruction of a parse -/
+
+/-- what a successful parse went through -/
+theorem parseBanner_ok_inv {bs : Bytes} {b : Banner} {n : Nat} (h : parseBanner bs = .ok (b, n)) :
+    3 ≤ bs.length ∧ bs.take 3 = ssh ∧ expectByte 0x2d (bs.drop 3) = .ok () ∧
+    ∃ major minor nv, bannerVersion (bs.drop 4) = .ok ((major, minor), nv) ∧
+      expectByte 0x2d (bs.drop (4 + nv)) = .ok () ∧
+      ((bs.drop (5 + nv)).takeWhile (· != 0x0a)).length < (bs.drop (5 + nv)).length ∧
+      isAscii ((bs.drop (5 + nv)).takeWhile (· != 0x0a)) = true ∧
+      bannerFinish major minor nv ((bs.drop (5 + nv)).takeWhile (· != 0x0a)) = .ok (b, n) := by
   unfold parseBanner at h
   split at h
   · simp at h
-  · split at h
+  · next h0 =>
+    split at h
     · simp at h
-    · cases h1 : expectByte 0x2d (bs.drop 3) with
+    · next hssh =>
+      cases h1 : expectByte 0x2d (bs.drop 3) with
       | error e => simp [h1, bind, Except.bind] at h
       | ok u1 =>
         simp only [h1, bind, Except.bind] at h
@@ -41,25 +73,34 @@ theorem banner_len_bound (bs : Bytes) (b : Banner) (n : Nat) (h : parseBanner bs
             · next hline =>
               split at h
               · simp at h
-              · cases h4 : bannerLine (List.takeWhile (fun x => x != 10) (List.drop (5 + nv) bs)) with
-                | error e => simp [h4] at h
-                | ok r4 =>
-                  obtain ⟨sw, comment⟩ := r4
-                  simp only [h4] at h
-                  split at h
-                  · simp at h
-                  · next hn =>
-                    split at h
-                    · simp at h
-                    · simp only [pure, Except.pure, Except.ok.injEq, Prod.mk.injEq] at h
-                      obtain ⟨_, hn2⟩ := h
-                      have hl := takeWhile_length_le (fun x => x != 10) (List.drop (5 + nv) bs)
-                      have hl2 := takeWhile_length_le (fun x => x == 10)
-                        (List.drop (List.takeWhile (fun x => x != 10) (List.drop (5 + nv) bs)).length
-                          (List.drop (5 + nv) bs))
-                      simp only [List.length_drop] at hl hl2 hline
-                      simp only [beq_iff_eq] at hline
-                      omega
+              · next hasc =>
+                have hl := takeWhile_length_le (fun x => x != 10) (List.drop (5 + nv) bs)
+                simp only [beq_iff_eq] at hline
+                refine ⟨by omega, by simpa using hssh, rfl, major, minor, nv, rfl, h3, by omega, by simpa using hasc, h⟩
+
+/-- the parser on a buffer whose parts are known -/
+theorem parseBanner_of_parts {bs : Bytes} {major minor nv : Nat} {r : Banner × Nat}
+    (h0 : 3 ≤ bs.length) (hssh : bs.take 3 = ssh) (h1 : expectByte 0x2d (bs.drop 3) = .ok ())
+    (h2 : bannerVersion (bs.drop 4) = .ok ((major, minor), nv)) (h3 : expectByte 0x2d (bs.drop (4 + nv)) = .ok ())
+    (hline : ((bs.drop (5 + nv)).takeWhile (· != 0x0a)).length < (bs.drop (5 + nv)).length)
+    (hasc : isAscii ((bs.drop (5 + nv)).takeWhile (· != 0x0a)) = true)
+    (hf : bannerFinish major minor nv ((bs.drop (5 + nv)).takeWhile (· != 0x0a)) = .ok r) :
+    parseBanner bs = .ok r := by
+  unfold parseBanner
+  have g0 : ¬ bs.length < 3 := by omega
+  have g7 : (((bs.drop (5 + nv)).takeWhile (· != 0x0a)).length == (bs.drop (5 + nv)).length) = false := by
+    apply beq_false_of_ne; omega
+  simp only [g0, if_false, hssh, bne_self_eq_false, Bool.false_eq_true, h1, bind, Except.bind, h2, h3, g7, hasc,
+    Bool.not_true, hf]
+
+/-- C03 for the banner: an accepted identification string consumed between 1 and 255 bytes, all of
+them inside the buffer; it ends with its first line feed -/
+theorem banner_len_bound (bs : Bytes) (b : Banner) (n : Nat) (h : parseBanner bs = .ok (b, n)) :
+    0 < n ∧ n ≤ bs.length ∧ n ≤ 255 := by
+  obtain ⟨_, _, _, major, minor, nv, _, _, hline, _, hf⟩ := parseBanner_ok_inv h
+  obtain ⟨hn, h255, _, _⟩ := bannerFinish_ok_inv hf
+  simp only [List.length_drop] at hline
+  omega
 
 /-! ### C02 for the identification string (true since the repair) -/
 
@@ -117,6 +158,20 @@ theorem expectByte_noCrash (c : UInt8) (bs : Bytes) (k : String) : expectByte c 
   · split <;> simp
   · simp
 
+theorem bannerFinish_noCrash (major minor nv : Nat) (line : Bytes) (k : String) :
+    bannerFinish major minor nv line ≠ .error (.crash k) := by
+  unfold bannerFinish
+  cases h4 : bannerLine line with
+  | error e =>
+    simp only [bind, Except.bind]
+    intro h; cases h
+    exact bannerLine_noCrash _ _ h4
+  | ok r4 =>
+    simp only [bind, Except.bind]
+    split
+    · simp
+    · split <;> simp [pure, Except.pure]
+
 /-- the identification string fails only with the four documented parse errors -/
 theorem banner_noCrash : NoCrash bannerCodec := by
   intro bs k
@@ -150,15 +205,7 @@ theorem banner_noCrash : NoCrash bannerCodec := by
             · simp
             · split
               · simp
-              · cases h4 : bannerLine (List.takeWhile (fun x => x != 10) (List.drop (5 + nv) bs)) with
-                | error e =>
-                  intro h; cases h
-                  exact bannerLine_noCrash _ _ h4
-                | ok r4 =>
-                  simp only []
-                  split
-                  · simp
-                  · split <;> simp [pure, Except.pure]
+              · exact bannerFinish_noCrash _ _ _ _ _
 
 /-- the banner composer writes the RFC 4253 §4.2 identification string, and nothing when that would
 be longer than the 255 bytes the RFC allows -/
